@@ -43,6 +43,7 @@ let parse_f64_table (o : string) : (n list * binary64 option) list =
       | _ -> failwith ("bad f64 oracle " ^ kv))
       (split_on ',' (String.sub o 4 (String.length o - 4)))
   else []
+let f64_mismatch = ref false
 let parse_num_table (o : string) : n list =
   if String.length o > 4 && String.sub o 0 4 = "num:" then cps_of (String.sub o 4 (String.length o - 4)) else []
 let parse_sym (o : string) : string =
@@ -133,8 +134,19 @@ let () =
       (match split_on ' ' case with
        | [kind; cps; ann] ->
          let text = cps_of cps in
+         (* str::parse::<f64> is the model's own parse_f64 (grammar + correctly rounded
+            conversion); the values the harness prints in its oracle column are only
+            cross-checked here *)
          let tbl = parse_f64_table oracle in
-         let pf (s : n list) : binary64 option = (try List.assoc s tbl with Not_found -> None) in
+         let pf (s : n list) : binary64 option =
+           let r = parse_f64 s in
+           (match List.assoc_opt s tbl with
+            | Some o when (match o, r with
+                | None, None -> false
+                | Some a, Some b -> not (is_nan a && is_nan b) && bits_of_b64 a <> bits_of_b64 b
+                | _ -> true) -> f64_mismatch := true
+            | _ -> ());
+           r in
          let nums = parse_num_table oracle in
          let uni_numeric (c : n) : bool = List.mem c nums in
          let model =
@@ -177,6 +189,8 @@ let () =
                   | OutOfFuel -> "FUEL") in
               Printf.sprintf "D=%s;S=%s;B=%s" d d b
             | _ -> failwith ("bad kind " ^ kind)) in
-         Printf.printf "%s\t%s\t%s\n" case model (spec_of kind text ann)
+         let spec = spec_of kind text ann in
+         let spec = if !f64_mismatch then (f64_mismatch := false; "F64-MODEL-DIFFERS") else spec in
+         Printf.printf "%s\t%s\t%s\n" case model spec
        | _ -> failwith ("bad case " ^ case))
     | _ -> failwith ("bad line " ^ line))
